@@ -7,7 +7,7 @@ def blsTable : List (Nat × Nat × Bool) := [(1, 1, false), (2, 2, true), (3, 3,
 def blsEmptyRejected : Bool := true   -- a length test precedes `msgBytes[0]`
 def blsDefaultIsError : Bool := true
 
-/-- `TPS.ClassifyMsg` (mpc/ps/tps.go:103): (first byte, round, broadcast-class) per case, in source order -/
+/-- `TPS.ClassifyMsg` (mpc/ps/tps.go:107): (first byte, round, broadcast-class) per case, in source order -/
 def psTable : List (Nat × Nat × Bool) := [(1, 1, false), (2, 2, true), (3, 3, true)]
 def psEmptyRejected : Bool := true   -- a length test precedes `msgBytes[0]`
 def psDefaultIsError : Bool := true
